@@ -145,7 +145,9 @@ def run(L, rep, tier, seed):
                 nm, qv = item.fields
                 cs.append(z3.And(z3.BoolVal(nm.buf is buf), nm.off == start, nm.len == 2))
                 if q[0] == 'nan':
-                    cs.append(z3.BoolVal(qv.cls == 'nan'))
+                    # a not-a-number weight is outside the qvalue grammar: the parser may report it as such (the selection then
+                    # has to cope, C14) or treat it like any other unparsable weight (default 1.0); both are accepted here
+                    cs.append(z3.Or(z3.BoolVal(qv.cls == 'nan'), z3.And(z3.BoolVal(qv.cls == 'fin'), (qv.milli == 1000) if qv.cls == 'fin' else z3.BoolVal(False))))
                 else:
                     cs.append(z3.BoolVal(qv.cls == 'fin'))
                     if qv.cls == 'fin':
